@@ -164,6 +164,28 @@ def run(pid, tier, seed):
                     fo.write(ln)
             scripts += flaps
         verdict = vlib.validate_chunks(scratch, outp, "GCPMETrace", lambda ln: '"op":"reset"' in ln[:80], tag="gtv", min_chunk=800)
+        # concurrent sections: RPCs while one UpdateMultiEndpoints is applied (LockSched schedules on the gate build, tools/conc_gme.py)
+        import conc_gme
+        conc_sum = None
+        cr = conc_gme.run(scratch, pid, tier, seed)
+        if cr:
+            conc_sum = dict(cr["summary"], model_runs=cr["stats"])
+            for b in cr["bad"]:
+                per = [[c for c in ids if c.startswith(pid)] for ids in b["per_order"]]
+                if all(per):
+                    verdict["bad"].append(dict(b, ids=min(per, key=len)))
+            for c_, n_ in cr["cnt"].items():
+                verdict["cnt"][c_] = verdict["cnt"].get(c_, 0) + n_
+            verdict["n"] += cr["n"]
+            for sid_, sc_ in cr["scripts"].items():
+                if sid_ in cr["traces"]:
+                    scripts.append(sc_)
+            with open(outp, "a") as fo:
+                for lns_ in cr["traces"].values():
+                    fo.writelines(lns_)
+            for st_ in cr["stats"]:
+                states += st_.get("distinct") or 0
+                transitions += st_.get("generated") or 0
         mine = []
         for b in verdict["bad"]:
             ids = [c for c in b["ids"] if c.startswith(pid)]
@@ -202,6 +224,7 @@ def run(pid, tier, seed):
                "events_validated": verdict["n"], "samples": samples, "exhaustive": False, "model_runs": stats,
                "clause_antecedent_hits": {c: verdict["cnt"][c] for c in mycl}, "vacuous_clauses": [c for c in mycl if verdict["cnt"][c] == 0],
                "model_problems": [{"mode": p["mode"], "violated": p["violated"]} for p in problems],
+               "concurrent_sections": conc_sum,
                "explanation": "specs/GCPME.tla model-checked against the clauses of specs/GCPMEGhost.tla for every history up to max_events inputs over a "
                               "catalogue of valid and invalid option sets, dial failures at the 1st/2nd dial, endpoint outages and RPCs; every history replayed "
                               "on the real GCPMultiEndpoint (failing reconfigurations repeated for Go map order); clauses evaluated by TLC on the trace"}
